@@ -8,7 +8,10 @@ import (
 	"time"
 
 	"github.com/drand/drand/v2/common"
+	"github.com/drand/drand/v2/internal/chain/beacon"
 	proto "github.com/drand/drand/v2/protobuf/drand"
+	"github.com/drand/drand/v2/verifharness/fix"
+	"google.golang.org/grpc/peer"
 	vrt "verif.local/vrt"
 	"verif.local/vrt/explore"
 )
@@ -20,6 +23,8 @@ type Item struct {
 	P     *proto.PartialBeaconPacket
 	// AdvanceTo: before delivering, wait until V's clock shows at least the start of this round (0: none)
 	AtRound uint64
+	// AfterHead: before delivering, wait until V's store head is at least this round (0: none)
+	AfterHead uint64
 }
 
 // VAdv is the "one real node V (member 0) + scripted other members" harness used by C01 (c01-agg), C03 and C04.
@@ -31,6 +36,13 @@ type VAdv struct {
 	// Rounds: how many rounds of virtual time the run covers
 	Rounds      int
 	EarlyTimers bool
+	// Prefill: V's store already holds rounds 0..Prefill of the reference chain; StartRound > 0: V's clock starts
+	// one second before that round and V starts with Catchup (a restart) instead of Start.
+	Prefill    uint64
+	StartRound uint64
+	// SyncHeight > 0: member 1 also serves sync requests from a store holding the reference chain up to this
+	// round (the real SyncChain server on a real store), i.e. V's peers are ahead of V's clock.
+	SyncHeight uint64
 	// ExpectBeacon[i], when set for sequence i, lists the rounds V must have stored at the end under the
 	// default schedule... (not used by safety oracles)
 }
@@ -69,17 +81,58 @@ func (h *VAdv) Run(devs []vrt.Dev, labels bool) *VAdvResult {
 	}
 	defer func() { ownSignHook = nil }()
 	until := time.Unix(k.Genesis, 0).Add(time.Duration(h.Rounds)*k.Period - time.Second)
-	res.S = vrt.Run(vrt.Options{Devs: devs, MaxSteps: 300000, Until: until, Labels: labels, Watchdog: 20 * time.Second}, func() {
+	start := vrt.Epoch
+	if h.StartRound > 0 {
+		start = time.Unix(common.TimeOfRound(k.Period, k.Genesis, h.StartRound), 0).Add(-time.Second)
+		until = time.Unix(common.TimeOfRound(k.Period, k.Genesis, h.StartRound+uint64(h.Rounds)), 0).Add(-time.Second)
+	}
+	mx := h.Prefill
+	if h.SyncHeight > mx {
+		mx = h.SyncHeight
+	}
+	var ref []*common.Beacon
+	if mx > 0 {
+		ref = k.RefChain(mx)
+	}
+	res.S = vrt.Run(vrt.Options{Devs: devs, Start: start, MaxSteps: 300000, Until: until, Labels: labels, Watchdog: 20 * time.Second}, func() {
 		defer vrt.SetEarlyTimers(h.EarlyTimers)
 		ctx := context.Background()
 		res.Seq = vrt.ChooseFree(len(h.Seqs), "packet sequence")
 		seq := h.Seqs[res.Seq]
 		nt := NewNet(k)
 		res.Net = nt
-		v, err := nt.AddNode(ctx, k, 0, h.Backend, 0)
+		var pre []*common.Beacon
+		if h.Prefill > 0 {
+			pre = ref[:h.Prefill+1]
+		}
+		v, err := nt.AddNodePrefilled(ctx, k, 0, h.Backend, 0, pre)
 		if err != nil {
 			res.Err = err
 			return
+		}
+		if h.SyncHeight > 0 {
+			// a peer store served by the real SyncChain routine
+			ps, pclean, err := fix.NewBackendSize(ctx, "memdb", k.SchemeID == "pedersen-bls-chained", 64)
+			if err != nil {
+				res.Err = err
+				return
+			}
+			defer pclean()
+			for _, b := range ref[:h.SyncHeight+1] {
+				_ = ps.Put(ctx, fix.CopyBeacon(b))
+			}
+			pcbs := beacon.NewCallbackStore(fix.Logger(), ps)
+			nt.SyncServe = func(from, to int, req *proto.SyncRequest, cctx context.Context) (chan *proto.BeaconPacket, error) {
+				ch := make(chan *proto.BeaconPacket, 64)
+				sctx, cancel := context.WithCancel(peer.NewContext(cctx, &peer.Peer{Addr: taddr(k.Addr(0))}))
+				st := &chanStream{ctx: sctx, ch: ch}
+				vrt.GoNamed("scripted-sync-server", func() {
+					defer cancel()
+					_ = beacon.SyncChain(fix.Logger(), pcbs, req, st)
+					vrt.Close(ch, func() { close(ch) })
+				})
+				return ch, nil
+			}
 		}
 		res.V = v
 		v.Mon.OnPut = func(b *common.Beacon) {
@@ -87,7 +140,9 @@ func (h *VAdv) Run(devs []vrt.Dev, labels bool) *VAdvResult {
 			res.WriteAt = append(res.WriteAt, vrt.VNow())
 			vrt.Logf("V: database write round %d", b.Round)
 		}
-		if err := v.H.Start(ctx); err != nil {
+		if h.StartRound > 0 {
+			v.H.Catchup(ctx)
+		} else if err := v.H.Start(ctx); err != nil {
 			res.Err = err
 			return
 		}
@@ -98,6 +153,10 @@ func (h *VAdv) Run(devs []vrt.Dev, labels bool) *VAdvResult {
 					if d := at.Sub(v.Clock.Now()); d > 0 {
 						v.Clock.Sleep(d)
 					}
+				}
+				if it.AfterHead > 0 {
+					want := it.AfterHead
+					vrt.BlockUntil(func() bool { b, err := v.Base.Last(ctx); return err == nil && b.Round >= want })
 				}
 				vrt.Logf("adversary: %s", it.Label)
 				_ = nt.Deliver(ctx, it.From, k.Addr(it.From), v, it.P)
@@ -133,6 +192,15 @@ func (h *VAdv) Judge(r *VAdvResult, prefix string) *explore.Exec {
 	}
 	chained := k.SchemeID == "pedersen-bls-chained"
 	prevSig := k.Seed // genesis beacon signature
+	var ref []*common.Beacon
+	if h.Prefill > 0 || h.SyncHeight > 0 {
+		mx := h.Prefill
+		if h.SyncHeight > mx {
+			mx = h.SyncHeight
+		}
+		ref = k.RefChain(mx)
+		prevSig = ref[h.Prefill].Signature
+	}
 	var wr []string
 	for i, b := range r.Writes {
 		if b.Round == 0 {
@@ -158,6 +226,9 @@ func (h *VAdv) Judge(r *VAdvResult, prefix string) *explore.Exec {
 			if bytes.Equal(m, dg) && !r.SignedAt[j].After(r.WriteAt[i]) {
 				signers[k.Shares[0].I] = true
 			}
+		}
+		if h.SyncHeight >= b.Round && bytes.Equal(ref[b.Round].Signature, b.Signature) {
+			continue // may legitimately come from the sync source
 		}
 		if len(signers) < k.T {
 			add("below-threshold", "round %d was stored while only %d distinct members (%v) had a valid partial for it at V (threshold %d)", b.Round, len(signers), keys(signers), k.T)
